@@ -130,6 +130,18 @@ def run(ctx):
         for count, number in ((3, 1500 if ctx.quick else 40000), (4, 700 if ctx.quick else 20000)):
             for _ in range(number):
                 cases.append({"arr": make_arr(rng, key, [rng.choice(pool) for _ in range(count)]), "sampled": True})
+        if key[1]:
+            # hybrids around the origin: a protocluster whose core spans the origin, partners whose cores contain its
+            # defining gene (shared defining gene), and one or two unrelated protoclusters anywhere
+            crossing = [s for s in pool if len(s["core"]["parts"]) > 1]
+            for _ in range(800 if ctx.quick else 20000):
+                first = rng.choice(crossing)
+                gene_at = first["core"]["parts"][0][0]
+                partners = [s for s in pool if any(a <= gene_at < b for a, b in s["core"]["parts"])]
+                chosen = [first] + [rng.choice(partners) for _ in range(rng.choice([1, 1, 2]))]
+                chosen += [rng.choice(pool) for _ in range(rng.choice([1, 2]))]
+                rng.shuffle(chosen)
+                cases.append({"arr": make_arr(rng, key, chosen[:4], "share" if rng.random() < 0.8 else "auto"), "sampled": True})
     for idx, case in enumerate(cases):
         case["id"] = idx
         count = len(case["arr"]["protos"])
